@@ -635,7 +635,7 @@ static void runSystem(Ctx &ctx)
         labels[i] = l;
     }
     Judged jd;
-    std::string tag = std::string("system ") + (m.voi >= 0 ? "ode" : "alg") + (m.nla.empty() ? "" : "+nla") + (scaled ? "+scaled" : "");
+    std::string tag = std::string(so.odeSelfRate ? "system+dx/dt=x " : "system ") + (m.voi >= 0 ? "ode" : "alg") + (m.nla.empty() ? "" : "+nla") + (scaled ? "+scaled" : "");
     judge(ctx, m, labels, points, tag, jd);
     stat("values_compared", jd.compared);
     stat("values_undecidable", jd.undecidable);
